@@ -4,7 +4,8 @@
          -> A <id> err | sing | res <0|1> <d>
      Q <id> bdual <g>       ; same input        (g = value of the uninitialised pstatus)
      Q <id> bkkt            ; same input
-         -> A <id> err | sing | <kkt 0|1> <nonbasic_ok 0|1> <pfeas&dfeas verdict 0|1> <objval> | z.. | y..
+         -> A <id> err | sing | <kkt 0|1> <nonbasic_ok 0|1> <pfeas&dfeas verdict 0|1> <objval> <lp_bounds_ok 0|1> | z.. | y..
+            (bopt / bdual / bkkt evaluate the basis as ILLbasis_load stores it: lib_optimalstatus, lib_dualstatus, loaded_basis)
      Q <id> tab             ; ILP block ; ORD h_0 .. h_{m-1} ; then m times:  BINV <i> r.. ; TROW <i> t..
          -> A <id> <S|N> <per row: b t> ...      (S: the basis matrix is singular according to the model)
      Q <id> mat <n> <k> [I|Y|-] ; n lines R v.. (dense rows) ; [Y y..] ; k lines  FT a.. | x..   or  BT c.. | y..
@@ -53,21 +54,24 @@ let () =
         (match kind, args with
          | "bopt", [] ->
            let (p, ns, isr, b) = read_basis_query ic in
-           Printf.printf "A %s %s\n" id (string_of_verdict (basis_optimalstatus !sentinel p (nat_of_int ns) isr b))
+           Printf.printf "A %s %s\n" id (string_of_verdict (lib_optimalstatus !sentinel p (nat_of_int ns) isr b))
          | "bdual", [ g ] ->
            let (p, ns, isr, b) = read_basis_query ic in
-           Printf.printf "A %s %s\n" id (string_of_verdict (basis_dualstatus !sentinel p (nat_of_int ns) isr b (coqz_of_z (BZ.of_string g))))
+           Printf.printf "A %s %s\n" id (string_of_verdict (lib_dualstatus !sentinel p (nat_of_int ns) isr b (coqz_of_z (BZ.of_string g))))
          | "bkkt", [] ->
-           let (p, ns, isr, b) = read_basis_query ic in
-           if not (load_ok p (nat_of_int ns) isr b) then Printf.printf "A %s err\n" id
+           let (p, ns, isr, b0) = read_basis_query ic in
+           (* the basis as ILLbasis_load stores it (statuses of non-basic structural columns normalised against the bounds) *)
+           let b = loaded_basis !sentinel p b0 in
+           if not (load_ok p (nat_of_int ns) isr b0) then Printf.printf "A %s err\n" id
            else (match xB_of p b, pi_of p b with
              | Some xb, Some pi ->
                let z = zfull p b xb and y = yuser p pi in
                let v = objval_l p.i_cols z in
                let k = check_kkt (inf_sentinel !sentinel) p z y v in
                let nb = nonbasic_ok !sentinel p b in
-               let verdict = (match basis_optimalstatus !sentinel p (nat_of_int ns) isr b with VRes (r, _) -> r | _ -> false) in
-               Printf.printf "A %s %s %s %s %s | %s | %s\n" id (bit k) (bit nb) (bit verdict) (string_of_q v) (qs_join z) (qs_join y)
+               let lpok = lp_bounds_ok !sentinel p (nat_of_int ns) isr in
+               let verdict = (match lib_optimalstatus !sentinel p (nat_of_int ns) isr b0 with VRes (r, _) -> r | _ -> false) in
+               Printf.printf "A %s %s %s %s %s %s | %s | %s\n" id (bit k) (bit nb) (bit verdict) (string_of_q v) (bit lpok) (qs_join z) (qs_join y)
              | _, _ -> Printf.printf "A %s sing\n" id)
          | "tab", [] ->
            let hdr = (match next_tokens ic with Some h -> h | None -> failwith "eof") in
